@@ -62,6 +62,8 @@ void harness(void)
   VX_ASSERT(!upm || (m1 & T.proc_mask) != 0, "bounded: the PU lies inside the process mask");
   VX_ASSERT(npu.a[k1] < 16 && (uint16_t) (1u << npu.a[k1]) == m1, "bounded: the reported PU number is the PU the worker is bound to");
   VX_ASSERT(k1 == k2 || m1 != m2, "bounded: two workers never share a PU");
+#if (B_C0 + B_C1 > 1) || (B_P != 0)   /* (a machine with a single PU has no accepted request under a partial mask) */
   if (upm && T.proc_mask != all) VX_REACH("partial_mask");
+#endif
   if (num_threads == limit) VX_REACH("all_pus_used");
 }
